@@ -526,6 +526,7 @@ type Target struct {
 	Mode     string // kill | stall
 	Settle   bool   // restart targets: let the node settle (snapshot work done) before the first kill
 	Graceful bool   // restart targets: the first stop is graceful
+	Continue bool   // after the check: go on with the history, kill at rest, restart again, check again
 }
 
 func (t Target) String() string {
@@ -669,6 +670,43 @@ func Run(t Target, script [][]string, ref []string) Outcome {
 		}
 		o.Violation = fmt.Sprintf("%d writes acknowledged, %d issued; the restarted node serves %s", o.Acked, o.Issued, where)
 		o.Detail = diffDump(ref[o.Acked], got)
+		return o
+	}
+	if t.Continue {
+		// second generation: the restarted node goes on with the history (crossing more snapshots), is killed
+		// at rest and started a third time: it must come back again and serve the whole history
+		for i := o.MatchedM; i < len(script); i++ {
+			if _, err := sr3.P.Conn.Do(script[i]...); err != nil {
+				o.Violation = fmt.Sprintf("after the restart write #%d of the history is not answered: %v", i, err)
+				o.Sig = "restart-not-writable"
+				return o
+			}
+		}
+		time.Sleep(300 * time.Millisecond)
+		sr3.P.Kill()
+		sr4 := StartProc(dir, t.Engine, SnapCount, nil)
+		if sr4.Err != nil {
+			if strings.HasPrefix(sr4.Err.Error(), "INFRA") {
+				return Outcome{Sig: "infra", Detail: sr4.Err.Error()}
+			}
+			o.Violation = fmt.Sprintf("the node came back once, went on with the history, was killed at rest and does not come back a second time: %v; stderr: %s", sr4.Err, firstLines(sr4.Stderr, 8))
+			o.Sig = "second-restart-fails"
+			return o
+		}
+		defer sr4.P.Kill()
+		got2, err := LogicalDump(sr4.P.Conn)
+		if err != nil || got2 != ref[len(script)] {
+			o.Violation = fmt.Sprintf("after the second restart the node does not serve the whole history (%v)", err)
+			o.Sig = "second-restart-wrong-data"
+			if err == nil {
+				o.Detail = diffDump(ref[len(script)], got2)
+			}
+			return o
+		}
+		if r, err := sr4.P.Conn.Do("incr", NS+":t:after"); err != nil || r.Kind != "int" || r.I != 1 {
+			o.Violation = fmt.Sprintf("after the second restart the node does not accept a write: %v %v", r, err)
+			o.Sig = "second-restart-not-writable"
+		}
 		return o
 	}
 	// the node must keep working: one more write and its effect
